@@ -40,6 +40,12 @@ pub assume_specification [<ParentHandle as PartialEq>::eq] (a: &ParentHandle, b:
 pub open spec fn removes(e: CertAuthEvent, n: ResourceClassName, p: ParentHandle) -> bool {
     match e { CertAuthEvent::ResourceClassRemoved { resource_class_name, parent, revoke_requests } => resource_class_name == n && parent == p && revoke_requests@.len() == 0, _ => false }
 }
+/// ASSUMED: `==` on parent contacts is value equality (derived PartialEq in krill)
+impl vstd::std_specs::cmp::PartialEqSpecImpl for ParentCaContact {
+    open spec fn obeys_eq_spec() -> bool { true }
+    open spec fn eq_spec(&self, other: &ParentCaContact) -> bool { *self == *other }
+}
+pub assume_specification [<ParentCaContact as PartialEq>::eq] (a: &ParentCaContact, b: &ParentCaContact) -> (r: bool);
 pub open spec fn class_removed(evs: Seq<CertAuthEvent>, n: ResourceClassName, p: ParentHandle) -> bool {
     exists |i: int| 0 <= i < evs.len() && removes(#[trigger] evs[i], n, p)
 }
@@ -60,13 +66,14 @@ pub proof fn lemma_removed_mono(a: Seq<CertAuthEvent>, e: CertAuthEvent, n: Reso
 
 def build():
     U = Unit('c03_parent_cmds', 'C03', 'parent removal removes every class held under that parent and no other, ParentRemoved last; a dropped class goes with the revocation requests of its own keys; a received certificate goes to the named class with the stored configuration')
-    common(U, skip=('ResourceClass', 'Routes', 'AspaDefinitions', 'BgpSecDefinitions'))
+    common(U, skip=('ResourceClass', 'Routes', 'AspaDefinitions', 'BgpSecDefinitions', 'ParentCaContact'))
+    U.opaque('ParentCaContact', 'Clone, PartialEq, Eq')
     for t in ['ResourceClass', 'Routes', 'AspaDefinitions', 'BgpSecDefinitions', 'ChildDetails', 'Config', 'KrillSigner', 'ReceivedCert', 'DropReason']:
         U.opaque(t, '')
     U.opaque('RevocationRequest', 'Clone')
     U.struct(CA, 'CertAuth', derive=[])
-    U.enum(EV, 'CertAuthEvent', keep=['ResourceClassRemoved', 'ParentRemoved'], derive=[])
-    U.enum(ERR, 'Error', keep=['CaParentUnknown', 'ResourceClassUnknown'], derive=[])
+    U.enum(EV, 'CertAuthEvent', keep=['ResourceClassRemoved', 'ParentRemoved', 'ParentAdded', 'ParentUpdated'], derive=[])
+    U.enum(ERR, 'Error', keep=['CaParentUnknown', 'ResourceClassUnknown', 'CaParentDuplicateName', 'CaParentDuplicateInfo'], derive=[])
     U.add(SPEC)
     km = 'obeys_key_model::<ResourceClassName>() && obeys_key_model::<ParentHandle>()'
     pairs = '''vx_it.seq().len() == self.resources@.len() && (forall |i: int| 0 <= i < vx_it.seq().len() ==> self.resources@.contains_key(*(#[trigger] vx_it.seq()[i]).0)
@@ -74,6 +81,34 @@ def build():
     U.impl('impl CertAuth', [
         U.fn(CA, 'CertAuth', 'handle', ensures=[('own_handle', '*r == self.handle')]),
         U.fn(CA, 'CertAuth', 'has_parent', requires=[('km', km)], ensures=[('iff_known', 'r == self.parents@.contains_key(*parent)')]),
+        # a parent is added only under a new name and with contact details no other parent has (two handles for one parent would
+        # make the CA request, and publish, everything twice); the contact of a known parent can be replaced, nothing else
+        U.fn(CA, 'CertAuth', 'process_add_parent', requires=[('km', km)], hash_loops=(0,), attrs=['#[verifier::loop_isolation(false)]'],
+             ensures=[
+                 ('accepted_exactly_for_a_new_name_and_new_contact_details', '''(r is Ok) <==> (!self.parents@.contains_key(parent)
+                        && forall |p: ParentHandle| #[trigger] self.parents@.contains_key(p) ==> self.parents@[p] != contact)'''),
+                 ('recorded_as_given', 'r is Ok ==> r->Ok_0@.len() == 1 && r->Ok_0@[0] == (CertAuthEvent::ParentAdded { parent, contact })'),
+             ],
+             loops={0: {'iter': 'vx_it', 'invariant': [
+                 ('km', km),
+                 ('pairs', '''vx_it.seq().len() == self.parents@.len() && (forall |i: int| 0 <= i < vx_it.seq().len() ==> self.parents@.contains_key(*(#[trigger] vx_it.seq()[i]).0)
+                        && self.parents@[*vx_it.seq()[i].0] == *vx_it.seq()[i].1) && vx_it.seq().no_duplicates()'''),
+                 ('new_name', '!self.parents@.contains_key(g_parent)'),
+                 ('a_parent_with_these_details_is_still_to_come', '''forall |p: ParentHandle| #[trigger] self.parents@.contains_key(p) && self.parents@[p] == contact
+                        ==> exists |j: int| vx_it.index@ <= j < vx_it.seq().len() && *(#[trigger] vx_it.seq()[j]).0 == p'''),
+             ]}},
+             ghost=[(('body_start',), 'let ghost g_parent = parent;'),
+                    (('loop_start', 0), 'let ghost g_i = vx_it.index@ as int; proof { assert(*parent_info == *vx_it.seq()[g_i].1 && *parent == *vx_it.seq()[g_i].0); }'),
+                    (('loop_end', 0), '''proof {
+                assert forall |p: ParentHandle| #[trigger] self.parents@.contains_key(p) && self.parents@[p] == contact
+                        implies exists |j: int| g_i + 1 <= j < vx_it.seq().len() && *(#[trigger] vx_it.seq()[j]).0 == p by {
+                    let j = choose |j: int| g_i <= j < vx_it.seq().len() && *(#[trigger] vx_it.seq()[j]).0 == p;
+                    if j == g_i { assert(self.parents@[p] == *vx_it.seq()[g_i].1); }
+                }
+            }''')]),
+        U.fn(CA, 'CertAuth', 'process_update_parent_contact', requires=[('km', km)], ensures=[
+            ('accepted_exactly_for_a_known_parent', '(r is Ok) == self.parents@.contains_key(parent)'),
+            ('recorded_as_given', 'r is Ok ==> r->Ok_0@.len() == 1 && r->Ok_0@[0] == (CertAuthEvent::ParentUpdated { parent, contact })')]),
         U.fn(CA, 'CertAuth', 'process_remove_parent', requires=[('km', km)], hash_loops=(0,), attrs=['#[verifier::loop_isolation(false)]'],
              ensures=[
                  ('refused_exactly_for_an_unknown_parent', '(r is Ok) == self.parents@.contains_key(parent)'),
